@@ -12,7 +12,7 @@ ASSUMPTIONS = c03.ASSUMPTIONS + ['due times are the timestamps last written to s
                                  'virtual clock: slimta.queue.time and slimta.queue.Event are substituted from the harness side']
 
 OWN = {'C12'}
-WEIGHTS = {'enqueue': 3, 'release': 12, 'tick': 5, 'advance': 4, 'flush': 3, 'announce': 1, 'restart': 2, 'serve': 8, 'storage': 2}
+WEIGHTS = {'enqueue': 3, 'release': 12, 'tick': 5, 'advance': 4, 'flush': 3, 'announce': 1, 'restart': 2, 'serve': 6, 'storage': 2, 'answer': 4}
 
 
 def nontrivial(labels, stats, cfg, acts):
@@ -24,6 +24,7 @@ def run_shard(ctx):
     qmgen.drive_sequences(ctx, OWN, 4 if ctx.thorough else 3, nontrivial)
     strat = qmgen.history(qmgen.configs(bks, pools=True, announce=True), WEIGHTS)
     qmgen.drive_histories(ctx, OWN, strat, ctx.n(2500, 40000), nontrivial)
+    qmgen.drive_histories(ctx, OWN, qmgen.burst_history(), ctx.n(1500, 25000), nontrivial, salt=7)
 
 
 def replay(case):
